@@ -6,9 +6,13 @@
 cd /verif || exit 2
 declare -A ONLY=(
  [C03-A]="" [C03-B]="" [C04-A]="EchoRequest" [C04-B]="WriteRawRequest" [C05-A]="header" [C05-B]="NegotiateResponse"
- [C01-A]="" [C02-A]="" [C06-A]="" [C06-B]="" [C07-A]="" [C07-B]="" [C08-B]="" [C09-B]="" [C10-A]="" [C11-A]="" [C11-B]=""
+ [C01-A]="" [C02-A]="" [C06-A]="" [C06-B]="" [C07-A]="" [C07-B]="" [C08-B]="" [C09-A]="" [C09-B]="" [C10-A]="" [C10-B]="" [C11-A]="" [C11-B]=""
  [C12-A]="" [C12-B]="" [C13-A]="" [C13-B]="" [C14-A]="" [C14-B]="" [C15-A]="" [C15-B]="" [C16-A]="" [C16-B]=""
  [C19-A]="" [C19-B]="" [C20-A]="" [C20-B]=""
+ [C01-C]="" [C01-D]="" [C02-D]="" [C03-C]="" [C03-D]="" [C04-C]="QueryInformationDiskResponse" [C04-D]="NtRenameRequest"
+ [C05-C]="dialects" [C05-D]="RenameRequest" [C06-C]="" [C06-D]="" [C07-C]="" [C07-D]="" [C08-C]="" [C08-D]="" [C09-C]="" [C09-D]=""
+ [C10-C]="" [C10-D]="" [C11-C]="" [C11-D]="" [C12-C]="" [C12-D]="" [C13-C]="" [C13-D]="" [C15-C]="" [C15-D]="" [C16-C]="" [C16-D]=""
+ [C19-C]="" [C19-D]="" [C20-C]="" [C20-D]=""
 )
 seeds=("$@"); [ ${#seeds[@]} -eq 0 ] && seeds=($(printf '%s\n' "${!ONLY[@]}" | sort))
 fail=0
